@@ -106,7 +106,7 @@ where
 {
     fn try_get_or_create(&self, name: &str) -> Option<sync::Arc<dyn Renderable>> {
         #[cfg(feature = "verif-hooks")]
-        let _sim = crate::verif::lock_scope(&self.cache as *const _ as usize, "lazy.cache");
+        crate::verif::before_lock(&|| crate::verif::mutex_is_locked(&self.cache), "lazy.cache");
         let mut cache = self.cache.lock().expect("not to be poisoned and reused");
         if let Some(result) = cache.get(name) {
             result.as_ref().ok().cloned()
@@ -124,7 +124,7 @@ where
 
     fn get_or_create(&self, name: &str) -> Result<sync::Arc<dyn Renderable>> {
         #[cfg(feature = "verif-hooks")]
-        let _sim = crate::verif::lock_scope(&self.cache as *const _ as usize, "lazy.cache");
+        crate::verif::before_lock(&|| crate::verif::mutex_is_locked(&self.cache), "lazy.cache");
         let mut cache = self.cache.lock().expect("not to be poisoned and reused");
         if let Some(result) = cache.get(name) {
             result.clone()
